@@ -212,6 +212,8 @@ class RawMeshData:
         nca = len(self.cell_faces._adj)
         if nca==0 or nce==0:
             # cell faces were not generated completely
+            self.cell_faces._elem = []
+            self.cell_faces._adj = []
 
             face_id = dict() # first invert face indirection
             for iF,F in enumerate(self.faces):
@@ -237,8 +239,7 @@ class RawMeshData:
                     ]
                 for face in faces_C:
                     self.cell_faces._elem.append(face_id[utils.keyify(face)])
-                    if nca!=0: 
-                        self.cell_faces._adj.append(iC)
+                    self.cell_faces._adj.append(iC)
 
     def _complete_edges_from_faces(self):
         if self.faces.empty() : return # nothing to do
